@@ -84,11 +84,11 @@ def build(spec, parent_desc, genome):
     return AnnotationCollectionModel.Schema().load(copy.deepcopy(spec)).to_annotation_collection(parent)
 
 
-def export(colls, fasta, crc=True, rra=True):
+def export(colls, fasta, crc=True, rra=True, **kw):
     buf = io.StringIO()
     with warnings.catch_warnings(record=True) as ws:
         warnings.simplefilter("always")
-        collection_to_gff3(colls, buf, add_sequences=fasta, chromosome_relative_coordinates=crc, raise_on_reserved_attributes=rra)
+        collection_to_gff3(colls, buf, add_sequences=fasta, chromosome_relative_coordinates=crc, raise_on_reserved_attributes=rra, **kw)
     return buf.getvalue(), [w for w in ws if issubclass(w.category, ReservedKeyWarning)]
 
 
@@ -468,6 +468,14 @@ def run_case(res, case):
     res.state(("F", f1))
     if is_nontrivial(case, specs):
         res.nontriv((specs, parent, crc, fasta))
+    # the writer takes any ITERABLE of collections: a one-shot iterator in the given order (ordered=False) writes what the
+    # list in the given order writes (the sorted file f1 when the given order is the sorted one)
+    o_l = lib.outcome(export, [build(s, parent, gn) for s, gn in zip(specs, genomes)], fasta, crc, rra, ordered=False)
+    o_i = lib.outcome(export, iter([build(s, parent, gn) for s, gn in zip(specs, genomes)]), fasta, crc, rra, ordered=False)
+    res.trans(2)
+    if o_l[0] != "ok" or o_i[0] != "ok" or o_l[1][0] != o_i[1][0] or (len(specs) == 1 and o_l[1][0] != f1):
+        res.deviation("leg1", case, [x[1][0] if x[0] == "ok" else x[1] for x in (o_l, o_i)], f1 if len(specs) == 1 else "one text for list and iterator",
+                      sig="export-iterable-differs")
     g1 = leg1_file(res, case, f1, specs, genomes, warns, off)
     if any(s.get("feature_collections") for s in specs):
         # the quantifier of the property lists gene models only: feature collections are checked by leg 1 alone
